@@ -340,7 +340,7 @@ Lemma c10_run_writer_scen en warn wx0 sc orig :
   | RDead w => mk_result None w
   end.
 Proof.
-  intros Hs. unfold c10_run, c10_main_stdout_check. destruct sc; try discriminate; simpl; rewrite ?andb_false_r;
+  intros Hs. unfold c10_run, c10_fail_exit, c10_main_stdout_check. destruct sc; try discriminate; simpl; rewrite ?andb_false_r;
     match goal with |- context [c10_no_warning ?x] => destruct x as [[] w1|e w1|w1]; simpl; try reflexivity end;
     destruct warn; reflexivity.
 Qed.
@@ -642,7 +642,7 @@ Lemma exit_status_matches_diagnostics_lemma : forall en warn wx0 sc orig code,
   let diag := cw_diag (rs_world (c10_run en warn wx0 sc orig)) in
   code = (if c10_has_err diag then 2 else if c10_has_warn diag && negb wx0 then 3 else 0).
 Proof.
-  intros en warn wx0 sc orig code Hx diag. subst diag. unfold c10_run in *.
+  intros en warn wx0 sc orig code Hx diag. subst diag. unfold c10_run, c10_fail_exit in *.
   assert (Hq0 : forallb c10_is_note (cw_diag (c10_initial en sc orig)) = true) by (destruct sc; reflexivity).
   pose proof (c10_job_notes en warn sc _ Hq0) as Hj.
   destruct (c10_job en warn sc (c10_initial en sc orig)) as [extra w1|e w1|w1]; simpl in Hj, Hx |- *.
@@ -672,4 +672,353 @@ Proof.
       (destruct (c10_process_exit_diag en sc 2 w4) as [D [E|E]]; rewrite E in Hx; [|discriminate];
        inversion Hx; subst; rewrite D, Hc; simpl; destruct e; reflexivity).
   - discriminate.
+Qed.
+
+(* ---- the pinned sinks (ANY checks vector): what remains true.  A stream that was flushed and closed holds
+   exactly what was written UNLESS its error indicator is set - which is the class of D2: a write error
+   that libc recorded and qpdf did not look at. *)
+Definition c10_wclean (w : c10_world) (name : nat) (data : list N) (open : bool) : Prop :=
+  exists f, c10_at w name = Some f /\ sf_open f = open /\ sf_rbuf f = [] /\ (sf_err f = false -> sio_disk f = data).
+
+Lemma c10_pl_finish_weak en name w w' data :
+  c10_sinv w name data -> c10_pl_finish en name w = ROk tt w' ->
+  c10_wclean w' name data true /\ c10_frame name w w'.
+Proof.
+  intros (f & Hat & Hop & Hlog) H. unfold c10_pl_finish, c10_fflush in H.
+  destruct (c10_stream_op en name w sio_fflush (fun ok => EvFlush name ok) true) as [ok w1|e w1|w1] eqn:Hs; simpl in H; try discriminate.
+  destruct (c10_stream_op_ok _ _ _ _ _ _ _ _ _ Hat Hs) as (f' & Hc & Hat' & Hfr).
+  assert (Hw : w' = w1) by (destruct (ck_finish (en_ck en) && (negb ok || c10_ferror w1 name)); [discriminate|inversion H; reflexivity]).
+  subst w'.
+  apply sio_fflush_spec in Hc. destruct Hc as ((R1 & _ & _ & R4 & _) & Hb & _).
+  pose proof (c10_apply_fault_rel (en_fault en (S (cw_n w))) f) as (F1 & _ & _ & F4 & _).
+  split; [|exact Hfr]. exists f'. split; [exact Hat'|]. split; [congruence|]. split; [exact Hb|].
+  intros He. destruct (R1 He) as [He0 Hl]. destruct (F1 He0) as [Hef Hl0]. rewrite app_nil_r in Hl, Hl0.
+  rewrite (sio_disk_logical _ Hb), Hl, Hl0. auto.
+Qed.
+
+Lemma c10_fclose_weak en name w w' data ok :
+  c10_wclean w name data true -> c10_fclose en name w = ROk ok w' ->
+  c10_wclean w' name data false /\ c10_frame name w w'.
+Proof.
+  intros (f & Hat & Hop & Hb & Hd) H. unfold c10_fclose in H.
+  destruct (c10_stream_op_ok _ _ _ _ _ _ _ _ _ Hat H) as (f' & Hc & Hat' & Hfr).
+  split; [|exact Hfr]. exists f'. split; [exact Hat'|].
+  unfold sio_fclose, sio_flushbuf in Hc.
+  assert (Hb0 : sf_rbuf (c10_apply_fault (en_fault en (S (cw_n w))) f) = []) by (destruct (en_fault en (S (cw_n w))); simpl; auto).
+  rewrite Hb0 in Hc. inversion Hc; subst; clear Hc. simpl.
+  destruct (en_fault en (S (cw_n w))); simpl; unfold sio_disk in *; simpl; auto.
+Qed.
+
+Lemma c10_writer_file_weak en name chunks w w' :
+  c10_writer_file en name chunks w = ROk tt w' ->
+  c10_wclean w' name (concat chunks) false /\ c10_frame name w w'.
+Proof.
+  intros H. unfold c10_writer_file in H.
+  destruct (c10_fopen en name w) as [ok w1|e w1|w1] eqn:Ho; simpl in H; try discriminate.
+  destruct ok; simpl in H; [|discriminate].
+  assert (Hinv1 : c10_sinv w1 name [] /\ c10_frame name w w1).
+  { unfold c10_fopen in Ho. simpl in Ho.
+    destruct (c10_is_killb (en_fault en (S (cw_n w)))); [discriminate|].
+    set (f0 := c10_apply_fault (en_fault en (S (cw_n w))) (sio_new (en_initcap en) false)) in *.
+    assert (Hf0 : sf_open f0 = true /\ (sf_err f0 = false -> sio_logical f0 = [])).
+    { subst f0. destruct (en_fault en (S (cw_n w))); simpl; auto. }
+    destruct (en_fault en (S (cw_n w))) eqn:Efa; simpl in Ho; try discriminate;
+      inversion Ho; subst; clear Ho;
+      (split; [exists f0; split; [apply c10_lookup_bind_same|exact Hf0]
+              |split; [intros m Hm; unfold c10_at; simpl; apply c10_lookup_bind_other; auto|split; reflexivity]]). }
+  destruct Hinv1 as [Hinv1 Hfr1].
+  set (body := c10_bind (c10_pl_write_chunks en name chunks w1) _) in H.
+  destruct body as [[] w5|e w5|w5] eqn:Hbody; simpl in H; try discriminate.
+  2:{ destruct (c10_is_open w5 name); [destruct (c10_fclose en name w5); discriminate|discriminate]. }
+  subst body.
+  destruct (c10_pl_write_chunks en name chunks w1) as [[] w2|e w2|w2] eqn:Hw; simpl in Hbody; try discriminate.
+  destruct (c10_pl_write_chunks_inv _ _ _ _ _ _ Hinv1 Hw) as (Hinv2 & Hfr2). simpl in Hinv2.
+  destruct (c10_pl_finish en name w2) as [[] w3|e w3|w3] eqn:Hfin; simpl in Hbody; try discriminate.
+  destruct (c10_pl_finish_weak _ _ _ _ _ Hinv2 Hfin) as (Hcl3 & Hfr3).
+  destruct (c10_fclose en name w3) as [okc w4|e w4|w4] eqn:Hcl; simpl in Hbody; try discriminate.
+  destruct (c10_fclose_weak _ _ _ _ _ _ Hcl3 Hcl) as (Hcl4 & Hfr4).
+  destruct (ck_wclose (en_ck en) && negb okc); [discriminate|]. inversion Hbody; subst; clear Hbody.
+  assert (Hopen : c10_is_open w5 name = false).
+  { destruct Hcl4 as (f & Hat & Hop & _). unfold c10_is_open. fold (c10_at w5 name). rewrite Hat. exact Hop. }
+  rewrite Hopen in H. inversion H; subst; clear H.
+  split; [exact Hcl4|].
+  eapply c10_frame_trans; [exact Hfr1|]. eapply c10_frame_trans; [exact Hfr2|]. eapply c10_frame_trans; [exact Hfr3|exact Hfr4].
+Qed.
+
+Lemma c10_split_weak en : forall outs w w',
+  NoDup (map fst outs) -> c10_split en outs w = ROk tt w' ->
+  (forall n c, In (n, c) outs -> c10_wclean w' n (concat c) false) /\
+  (forall m, ~ In m (map fst outs) -> c10_at w' m = c10_at w m).
+Proof.
+  induction outs as [|[name chunks] tl IH]; intros w w' Hnd H; simpl in H.
+  - inversion H; subst. split; auto. intros n c [].
+  - destruct (c10_writer_file en name chunks w) as [[] w1|e w1|w1] eqn:Hw; simpl in H; try discriminate.
+    destruct (c10_writer_file_weak _ _ _ _ _ Hw) as (Hcl & Hfr).
+    inversion Hnd as [|? ? Hnotin Hnd']; subst.
+    destruct (IH _ _ Hnd' H) as (I1 & I2).
+    split.
+    + intros n c [Heq|Hin].
+      * inversion Heq; subst. destruct Hcl as (f & Hat & Hrest). exists f. rewrite I2; auto.
+      * apply I1; auto.
+    + intros m Hm. simpl in Hm. rewrite I2 by tauto. destruct Hfr as (F & _). apply F. intros ->. apply Hm. left; reflexivity.
+Qed.
+
+Lemma c10_replace_weak en warn inp backup temp chunks w w' :
+  inp <> backup -> inp <> temp -> backup <> temp ->
+  c10_replace en warn inp backup temp chunks w = ROk tt w' ->
+  c10_wclean w' inp (concat chunks) false.
+Proof.
+  intros Hib Hit Hbt H. unfold c10_replace in H.
+  destruct (c10_writer_file en temp chunks w) as [[] w1|e w1|w1] eqn:Hw; simpl in H; try discriminate.
+  destruct (c10_writer_file_weak _ _ _ _ _ Hw) as ((ft & Hat & Hrest) & _).
+  destruct (c10_rename en inp backup w1) as [ok1 w2|e w2|w2] eqn:Hr1; simpl in H; try discriminate.
+  destruct (c10_rename_cases _ _ _ _ _ _ Hib Hr1) as [[-> _]|[-> (f1 & A1 & A2 & A3 & A4)]]; simpl in H; [discriminate|].
+  destruct (c10_rename en temp inp w2) as [ok2 w3|e w3|w3] eqn:Hr2; simpl in H; try discriminate.
+  assert (Hti : temp <> inp) by auto.
+  destruct (c10_rename_cases _ _ _ _ _ _ Hti Hr2) as [[-> _]|[-> (f2 & B1 & B2 & B3 & B4)]]; simpl in H; [discriminate|].
+  rewrite A4 in B1 by auto. rewrite Hat in B1. inversion B1; subst f2; clear B1.
+  destruct warn.
+  - inversion H; subst. exists ft. rewrite c10_at_say. split; [exact B2|exact Hrest].
+  - destruct (c10_unlink en backup w3) as [ok3 w4|e w4|w4] eqn:Hu; simpl in H; try discriminate.
+    destruct (c10_unlink_cases _ _ _ _ _ Hu) as (U1 & _).
+    destruct ok3; inversion H; subst; exists ft; rewrite ?c10_at_say; (split; [rewrite U1 by auto; exact B2|exact Hrest]).
+Qed.
+
+(* C10, third sentence, for ANY checks vector (in particular the pinned tree), writer scenarios: exit status 0 or 3
+   implies that every output file is closed and - unless the error indicator of its stream is set, i.e. unless a
+   write error was recorded by libc and ignored by qpdf (finding D2) - complete. *)
+Lemma exit_ok_implies_complete_partial_lemma : forall en warn wx0 sc orig n c,
+  c10_writer_scen sc = true -> c10_wf sc ->
+  (rs_exit (c10_run en warn wx0 sc orig) = Some 0 \/ rs_exit (c10_run en warn wx0 sc orig) = Some 3) ->
+  In (n, c) (c10_intended sc) ->
+  exists f, c10_lookup (cw_dir (rs_world (c10_run en warn wx0 sc orig))) n = Some f /\ sf_open f = false /\
+            (sf_err f = false -> c10_file_of (c10_run en warn wx0 sc orig) n = Some c).
+Proof.
+  intros en warn wx0 sc orig n c Hs Hwf Hexit Hin.
+  rewrite (c10_run_writer_scen _ _ _ _ _ Hs) in *.
+  assert (Hfin : forall code w, c10_wclean w n c false ->
+            exists f, c10_lookup (cw_dir (rs_world (mk_result code (c10_exit_flush_all w)))) n = Some f /\ sf_open f = false /\
+                      (sf_err f = false -> c10_file_of (mk_result code (c10_exit_flush_all w)) n = Some c)).
+  { intros code w (f & Hat & Hop & Hb & Hd). exists f. unfold c10_file_of, c10_exit_flush_all. simpl.
+    rewrite c10_lookup_map. unfold c10_at in Hat. rewrite Hat. simpl. unfold sio_exit_flush. rewrite Hop.
+    split; [reflexivity|]. split; [reflexivity|]. intros He. unfold sio_disk in *. rewrite (Hd He). reflexivity. }
+  assert (Hsay : forall w (b : bool), c10_wclean w n c false -> c10_wclean (if b then c10_say w DgWarn else w) n c false).
+  { intros w b Hc. destruct b; [|exact Hc]. destruct Hc as (f & Hat & Hr). exists f. rewrite c10_at_say. split; [exact Hat|exact Hr]. }
+  destruct sc as [out chunks|outs| | |inp backup temp chunks]; try discriminate; simpl in Hin, Hexit |- *.
+  - destruct Hin as [Heq|[]]. inversion Heq; subst; clear Heq.
+    destruct (c10_writer_file en n chunks _) as [[] w1|e w1|w1] eqn:Hw; simpl in *; try (destruct Hexit; discriminate).
+    destruct (c10_writer_file_weak _ _ _ _ _ Hw) as (Hcl & _). apply Hfin, Hsay, Hcl.
+  - destruct (c10_split en outs _) as [[] w1|e w1|w1] eqn:Hw; simpl in *; try (destruct Hexit; discriminate).
+    destruct (c10_split_weak _ _ _ _ Hwf Hw) as (I1 & _).
+    apply in_map_iff in Hin. destruct Hin as ([n0 c0] & Heq & Hin0). simpl in Heq. inversion Heq; subst; clear Heq.
+    apply Hfin, Hsay, I1, Hin0.
+  - destruct Hin as [Heq|[]]. inversion Heq; subst; clear Heq. destruct Hwf as (Hib & Hit & Hbt).
+    destruct (c10_replace en warn n backup temp chunks _) as [[] w1|e w1|w1] eqn:Hw; simpl in *; try (destruct Hexit; discriminate).
+    apply Hfin, Hsay. apply (c10_replace_weak _ _ _ _ _ _ _ _ Hib Hit Hbt Hw).
+Qed.
+
+(* ---- std::cout scenarios, repaired realmain *)
+Definition c10_oinv (w : c10_world) (data : list N) : Prop :=
+  exists f, c10_at w c10_stdout = Some f /\ sf_open f = true /\
+            (sf_err f = false -> cw_cout_bad w = false -> sio_logical f = data).
+
+Lemma c10_stream_op_no_exc {A} en name w (call : sfile -> A * sfile) ev dflt e w1 :
+  c10_stream_op en name w call ev dflt <> RExc e w1.
+Proof.
+  unfold c10_stream_op. destruct (c10_is_killb _); [discriminate|]. destruct (c10_lookup _ _); [|discriminate].
+  destruct (call _). destruct (c10_is_killa _); discriminate.
+Qed.
+Lemma c10_os_write_no_exc en d w e w1 : c10_os_write en d w <> RExc e w1.
+Proof.
+  unfold c10_os_write. destruct d; [discriminate|]. destruct (cw_cout_bad w); [discriminate|]. unfold c10_fwrite.
+  pose proof (c10_stream_op_no_exc en c10_stdout w (fun f => sio_fwrite (en_B en) f (n :: d)) (fun r => EvWrite c10_stdout (length (n :: d)) r) 0) as H.
+  destruct (c10_stream_op _ _ _ _ _ _) as [r w2|e2 w2|w2]; simpl; try discriminate. exfalso. eapply H; reflexivity.
+Qed.
+
+Lemma c10_os_write_inv en d w w' data :
+  c10_oinv w data -> c10_os_write en d w = ROk tt w' -> c10_oinv w' (data ++ d).
+Proof.
+  intros (f & Hat & Hop & Hlog) H. unfold c10_os_write in H. destruct d as [|b tl].
+  - inversion H; subst. rewrite app_nil_r. exists f. auto.
+  - destruct (cw_cout_bad w) eqn:Hbad.
+    + inversion H; subst. exists f. split; [exact Hat|]. split; [exact Hop|]. intros _ Hb. congruence.
+    + unfold c10_fwrite in H.
+      destruct (c10_stream_op en c10_stdout w (fun f0 => sio_fwrite (en_B en) f0 (b :: tl)) (fun r => EvWrite c10_stdout (length (b :: tl)) r) 0)
+        as [r w1|e w1|w1] eqn:Hs; simpl in H; try discriminate.
+      destruct (c10_stream_op_ok _ _ _ _ _ _ _ _ _ Hat Hs) as (f' & Hc & Hat' & (_ & _ & Hb1)).
+      inversion H; subst w'; clear H.
+      apply sio_fwrite_spec in Hc. destruct Hc as (C1 & C2 & (_ & _ & C3 & _)).
+      pose proof (c10_apply_fault_rel (en_fault en (S (cw_n w))) f) as (F1 & _ & _ & F4 & _).
+      exists f'. split; [destruct (r <? _); exact Hat'|]. split; [congruence|].
+      intros He Hb. destruct (C2 He) as [Hr (R & _)]. destruct (R He) as [He0 Hl]. destruct (F1 He0) as [Hef Hl0].
+      rewrite app_nil_r in Hl0. rewrite Hl, Hl0. rewrite (Hlog Hef eq_refl). reflexivity.
+Qed.
+
+Lemma c10_os_flush_inv en w data :
+  c10_oinv w data ->
+  match c10_os_flush en w with ROk _ w' => c10_oinv w' data | RExc _ _ => False | RDead _ => True end.
+Proof.
+  intros (f & Hat & Hop & Hlog). unfold c10_os_flush. destruct (cw_cout_bad w) eqn:Hbad.
+  - exists f. split; [exact Hat|]. split; [exact Hop|]. intros _ Hb. congruence.
+  - unfold c10_fflush.
+    destruct (c10_stream_op en c10_stdout w sio_fflush (fun ok => EvFlush c10_stdout ok) true) as [ok w1|e w1|w1] eqn:Hs; simpl; auto.
+    + destruct (c10_stream_op_ok _ _ _ _ _ _ _ _ _ Hat Hs) as (f' & Hc & Hat' & (_ & _ & Hb1)).
+      apply sio_fflush_spec in Hc. destruct Hc as ((R1 & _ & _ & R4 & _) & _ & _).
+      pose proof (c10_apply_fault_rel (en_fault en (S (cw_n w))) f) as (F1 & _ & _ & F4 & _).
+      exists f'. split; [destruct ok; exact Hat'|]. split; [congruence|].
+      intros He Hb. destruct (R1 He) as [He0 Hl]. destruct (F1 He0) as [Hef Hl0]. rewrite app_nil_r in Hl, Hl0.
+      rewrite Hl, Hl0. apply Hlog; auto.
+    + exact (c10_stream_op_no_exc _ _ _ _ _ _ _ _ Hs).
+Qed.
+
+Lemma c10_os_tie_n_inv en : forall n w data,
+  c10_oinv w data ->
+  match c10_os_tie_n n en w with ROk _ w' => c10_oinv w' data | RExc _ _ => False | RDead _ => True end.
+Proof.
+  induction n as [|k IH]; intros w data Hinv; simpl; [exact Hinv|].
+  pose proof (c10_os_flush_inv en w data Hinv) as H.
+  destruct (c10_os_flush en w) as [[] w1|e w1|w1]; simpl; auto. apply IH; auto.
+Qed.
+
+Lemma c10_os_items_inv en : forall items w data,
+  c10_oinv w data ->
+  match c10_os_items en items w with ROk _ w' => c10_oinv w' (data ++ c10_stdout_data items) | RExc _ _ => False | RDead _ => True end.
+Proof.
+  induction items as [|it tl IH]; intros w data Hinv; simpl.
+  - rewrite app_nil_r. exact Hinv.
+  - destruct it as [d|].
+    + destruct (c10_os_write en d w) as [[] w1|e w1|w1] eqn:Hw; simpl; auto.
+      * pose proof (c10_os_write_inv _ _ _ _ _ Hinv Hw) as H1. specialize (IH w1 (data ++ d) H1).
+        rewrite <- app_assoc in IH. exact IH.
+      * exact (c10_os_write_no_exc _ _ _ _ _ Hw).
+    + pose proof (c10_os_flush_inv en w data Hinv) as H.
+      destruct (c10_os_flush en w) as [[] w1|e w1|w1]; simpl; auto. apply IH; auto.
+Qed.
+
+Lemma c10_os_finish_n_inv en : forall n w data,
+  c10_oinv w data ->
+  match c10_os_finish_n n en w with ROk _ w' | RExc _ w' => c10_oinv w' data | RDead _ => True end.
+Proof.
+  induction n as [|k IH]; intros w data Hinv; simpl; [exact Hinv|].
+  unfold c10_os_finish. pose proof (c10_os_flush_inv en w data Hinv) as H.
+  destruct (c10_os_flush en w) as [[] w1|e w1|w1]; simpl; auto; [|contradiction].
+  destruct (ck_ostream (en_ck en) && cw_cout_bad w1); simpl; [exact H|]. apply IH; auto.
+Qed.
+
+(* after realmain's check: the kernel has everything and the buffer is empty; later flushes are no-ops *)
+Definition c10_oclean (w : c10_world) (data : list N) : Prop :=
+  exists f, c10_at w c10_stdout = Some f /\ sf_open f = true /\ sf_rbuf f = [] /\ sio_disk f = data.
+
+Lemma c10_fflush_oclean en w data :
+  c10_oclean w data ->
+  match c10_fflush en c10_stdout w with ROk _ w' => c10_oclean w' data | RExc _ _ => False | RDead _ => True end.
+Proof.
+  intros (f & Hat & Hop & Hb & Hd). unfold c10_fflush, c10_stream_op. simpl.
+  destruct (c10_is_killb _); [exact I|]. unfold c10_at in Hat. rewrite Hat.
+  assert (Hf : sio_fflush (c10_apply_fault (en_fault en (S (cw_n w))) f) = (true, c10_apply_fault (en_fault en (S (cw_n w))) f)).
+  { unfold sio_fflush, sio_flushbuf. destruct (en_fault en (S (cw_n w))); simpl; rewrite Hb; reflexivity. }
+  rewrite Hf. destruct (c10_is_killa _); [exact I|].
+  exists (c10_apply_fault (en_fault en (S (cw_n w))) f). unfold c10_at, c10_log, c10_put, c10_set_dir, c10_tick; cbn [cw_dir].
+  split; [apply c10_lookup_bind_same|]. destruct (en_fault en (S (cw_n w))); simpl; auto.
+Qed.
+Lemma c10_os_flush_oclean en w data :
+  c10_oclean w data ->
+  match c10_os_flush en w with ROk _ w' => c10_oclean w' data | RExc _ _ => False | RDead _ => True end.
+Proof.
+  intros Hc. unfold c10_os_flush. destruct (cw_cout_bad w); [exact Hc|].
+  pose proof (c10_fflush_oclean en w data Hc) as H. destruct (c10_fflush en c10_stdout w) as [ok w1|e w1|w1]; simpl; auto.
+  destruct ok; [exact H|]. destruct H as (f & Hf). exists f. exact Hf.
+Qed.
+Lemma c10_os_tie_n_oclean en : forall n w data,
+  c10_oclean w data ->
+  match c10_os_tie_n n en w with ROk _ w' => c10_oclean w' data | RExc _ _ => False | RDead _ => True end.
+Proof.
+  induction n as [|k IH]; intros w data Hc; simpl; [exact Hc|].
+  pose proof (c10_os_flush_oclean en w data Hc) as H. destruct (c10_os_flush en w) as [[] w1|e w1|w1]; simpl; auto. apply IH; auto.
+Qed.
+Lemma c10_exit_rounds_oclean en : forall n wbad w data,
+  c10_oclean w data ->
+  match c10_exit_rounds n en wbad w with ROk _ w' => c10_oclean w' data | RExc _ _ => False | RDead _ => True end.
+Proof.
+  induction n as [|k IH]; intros wbad w data Hc; simpl; [exact Hc|].
+  pose proof (c10_os_flush_oclean en w data Hc) as H. destruct (c10_os_flush en w) as [[] w1|e w1|w1]; simpl; auto.
+  destruct wbad; [apply IH; auto|].
+  pose proof (c10_fflush_oclean en w1 data H) as H2. destruct (c10_fflush en c10_stdout w1) as [ok w2|e w2|w2]; simpl; auto. apply IH; auto.
+Qed.
+
+Lemma c10_process_exit_oclean en items nfin ntie sw code w data c :
+  c10_oclean w data ->
+  rs_exit (c10_process_exit en (ScStdout items nfin ntie sw) code w) = Some c ->
+  c10_file_of (c10_process_exit en (ScStdout items nfin ntie sw) code w) c10_stdout = Some data.
+Proof.
+  intros Hc. unfold c10_process_exit. cbn [c10_uses_stdout].
+  pose proof (c10_os_tie_n_oclean en 2 w data Hc) as H1.
+  destruct (c10_os_tie_n 2 en w) as [[] w1|e w1|w1]; cbn [c10_bind]; [|contradiction|cbn; discriminate].
+  pose proof (c10_exit_rounds_oclean en (en_exit_rounds en) false w1 data H1) as H2.
+  destruct (c10_exit_rounds (en_exit_rounds en) en false w1) as [[] w2|e w2|w2]; [|contradiction|cbn; discriminate].
+  intros _. destruct H2 as (f & Hat & Hop & Hb & Hd). unfold c10_file_of, c10_exit_flush_all. cbn [rs_world cw_dir c10_set_dir].
+  rewrite c10_lookup_map. unfold c10_at in Hat. rewrite Hat. cbn [option_map]. unfold sio_exit_flush, sio_flushbuf. rewrite Hop, Hb. cbn [snd]. rewrite Hd. reflexivity.
+Qed.
+
+Lemma c10_fail_exit_code en sc e w :
+  rs_exit (c10_fail_exit en sc e w) = Some 2 \/ rs_exit (c10_fail_exit en sc e w) = None.
+Proof.
+  unfold c10_fail_exit. destruct (c10_os_tie_n (c10_catch_ties sc) en _) as [[] w4|e4 w4|w4]; cbn [rs_exit]; auto;
+    apply (c10_process_exit_diag en sc 2 w4).
+Qed.
+Lemma c10_fail_exit_not_ok en sc e w : ~ (rs_exit (c10_fail_exit en sc e w) = Some 0 \/ rs_exit (c10_fail_exit en sc e w) = Some 3).
+Proof. destruct (c10_fail_exit_code en sc e w) as [H|H]; rewrite H; intros [A|A]; discriminate. Qed.
+
+(* C10, third sentence, std::cout scenarios (qpdf in - , --show-attachment, JSON to stdout), with the repaired realmain
+   (stdout is flushed and its error indicator and cout's state are looked at before the status is chosen): for every
+   buffer size, data, fault oracle, capacity, whatever Pl_OStream::finish does: exit 0 or 3 implies that standard
+   output received exactly what was written. *)
+Lemma exit_ok_implies_complete_stdout_lemma : forall en warn wx0 items nfin ntie sw orig,
+  ck_stdout (en_ck en) = true ->
+  let r := c10_run en warn wx0 (ScStdout items nfin ntie sw) orig in
+  (rs_exit r = Some 0 \/ rs_exit r = Some 3) ->
+  c10_file_of r c10_stdout = Some (c10_stdout_data items).
+Proof.
+  intros en warn wx0 items nfin ntie sw orig Hck r Hx. subst r. unfold c10_run in *.
+  set (sc := ScStdout items nfin ntie sw) in *.
+  set (w0 := c10_initial en sc orig) in *.
+  assert (Hinv0 : c10_oinv w0 []).
+  { exists (sio_new (en_initcap en) true). subst w0 sc. unfold c10_at, c10_initial. simpl. auto. }
+  assert (Hjob : match c10_job en warn sc w0 with
+                 | ROk _ w' => c10_oinv w' (c10_stdout_data items) | RExc _ _ => True | RDead _ => True end).
+  { subst sc. cbn [c10_job]. pose proof (c10_os_items_inv en items w0 [] Hinv0) as H1. cbn [app] in H1.
+    destruct (c10_os_items en items w0) as [[] w1|e w1|w1]; cbn [c10_bind]; try contradiction; auto.
+    pose proof (c10_os_finish_n_inv en nfin w1 _ H1) as H2.
+    destruct (c10_os_finish_n nfin en w1) as [[] w2|e w2|w2]; cbn [c10_no_warning c10_bind]; auto. destruct sw; auto. }
+  destruct (c10_job en warn sc w0) as [extra w1|e w1|w1]; cbn [c10_bind] in Hx |- *.
+  2:{ exfalso. exact (c10_fail_exit_not_ok _ _ _ _ Hx). }
+  2:{ destruct Hx; discriminate. }
+  set (w1' := if warn || extra then c10_say w1 DgWarn else w1) in *.
+  assert (Hinv1 : c10_oinv w1' (c10_stdout_data items)).
+  { subst w1'. destruct (warn || extra); [|exact Hjob]. destruct Hjob as (f & Hf). exists f. exact Hf. }
+  assert (Hties : c10_closing_ties sc = ntie) by reflexivity. rewrite Hties in *.
+  pose proof (c10_os_tie_n_inv en ntie w1' _ Hinv1) as Ht.
+  destruct (c10_os_tie_n ntie en w1') as [[] w2|e w2|w2]; cbn [c10_bind] in Hx |- *; try contradiction.
+  2:{ destruct Hx; discriminate. }
+  unfold c10_main_stdout_check in *. rewrite Hck in *.
+  assert (Hu : c10_uses_stdout sc = true) by reflexivity. rewrite Hu in *. cbn [andb] in Hx |- *.
+  destruct Ht as (f & Hat & Hop & Hlog).
+  unfold c10_fflush in *.
+  destruct (c10_stream_op en c10_stdout w2 sio_fflush (fun ok => EvFlush c10_stdout ok) true) as [ok w3|e w3|w3] eqn:Hs; cbn [c10_bind] in Hx |- *.
+  - destruct (c10_stream_op_ok _ _ _ _ _ _ _ _ _ Hat Hs) as (f' & Hc & Hat' & (_ & _ & Hb3)).
+    unfold c10_ferror in *. fold (c10_at w3 c10_stdout) in *. rewrite Hat' in *.
+    destruct (negb ok || sf_err f' || cw_cout_bad w3) eqn:E; cbn [c10_bind] in Hx |- *.
+    + exfalso. exact (c10_fail_exit_not_ok _ _ _ _ Hx).
+    + apply orb_false_iff in E. destruct E as [E Eb]. apply orb_false_iff in E. destruct E as [_ Ee].
+      apply sio_fflush_spec in Hc. destruct Hc as ((R1 & _ & _ & R4 & _) & Hbuf & _).
+      pose proof (c10_apply_fault_rel (en_fault en (S (cw_n w2))) f) as (F1 & _ & _ & F4 & _).
+      destruct (R1 Ee) as [He0 Hl]. destruct (F1 He0) as [Hef Hl0]. rewrite app_nil_r in Hl, Hl0.
+      assert (Hclean : c10_oclean w3 (c10_stdout_data items)).
+      { exists f'. split; [exact Hat'|]. split; [congruence|]. split; [exact Hbuf|].
+        rewrite (sio_disk_logical _ Hbuf), Hl, Hl0. apply Hlog; [exact Hef|congruence]. }
+      destruct (rs_exit (c10_process_exit en sc (if (warn || extra) && negb wx0 then 3 else 0) w3)) eqn:Ex.
+      * subst sc. eapply c10_process_exit_oclean; eauto.
+      * destruct Hx; discriminate.
+  - exfalso. exact (c10_fail_exit_not_ok _ _ _ _ Hx).
+  - destruct Hx; discriminate.
 Qed.
